@@ -56,3 +56,37 @@ Section ArrDSL.
   (** explicit (top, bottom) boundary values or the default *)
   Definition bv_or (p : option (F * F)) (d : F * F) : F * F := match p with None => d | Some q => q end.
 End ArrDSL.
+
+(** *** additions for dinosaur/vertical_interpolation.py (property C17); C13 uses none of these *)
+Fixpoint count_upto (n : nat) (p : nat -> bool) : nat :=
+  match n with O => O | S k => (count_upto k p + (if p k then 1 else 0))%nat end.
+(** integer arrays (jnp.arange) *)
+Definition narr : Type := (nat * (nat -> nat))%type.
+Definition a_arange (n : nat) : narr := (n, fun k => k).
+Definition a_mapn (f : nat -> bool) (a : narr) : barr := (fst a, fun k => f (snd a k)).
+(** jnp.clip(u, lo, hi) = minimum(maximum(u, lo), hi) *)
+Definition a_clipn (u lo hi : nat) : nat := Nat.min (Nat.max u lo) hi.
+
+Section ArrDSL2.
+  Context {F : Type} {o : Ops F}.
+  Local Notation arr := (arr F).
+
+  (** length-checked elementwise operations: python raises on unequal lengths; here the result
+      is EMPTY, so the length equalities proved about a transcription detect the mismatch *)
+  Definition chk_len (n m : nat) : nat := if Nat.eqb n m then n else 0%nat.
+  Definition a_map2_chk (f : F -> F -> F) (a c : arr) : arr :=
+    (chk_len (fst a) (fst c), fun k => f (snd a k) (snd c k)).
+  Definition a_map2b_chk (f : F -> bool -> F) (a : arr) (c : barr) : arr :=
+    (chk_len (fst a) (fst c), fun k => f (snd a k) (snd c k)).
+  (** boolean array used as numbers *)
+  Definition a_ofb (c : barr) : arr := (fst c, fun k => ind (snd c k)).
+  (** jnp.where(scalar condition, a, c) *)
+  Definition a_if_chk (t : bool) (a c : arr) : arr :=
+    (chk_len (fst a) (fst c), fun k => if t then snd a k else snd c k).
+  (** jnp.dot of two 1-D arrays *)
+  Definition a_dot_chk (a c : arr) : F := a_sum (a_map2_chk fmul a c).
+  (** jnp.pad(a, [(l, r)]) with zeros *)
+  Definition a_pad (l r : nat) (a : arr) : arr := a_concatl [a_const l 0; a; a_const r 0].
+  (** jnp.searchsorted(a, x, side=..., method='compare_all'): number of entries before the insertion point *)
+  Definition a_count (p : F -> bool) (a : arr) : nat := count_upto (fst a) (fun k => p (snd a k)).
+End ArrDSL2.
